@@ -39,9 +39,14 @@ MANIFEST = {
     "technique": ("Coq model of export_sdl (escape table regenerated from source) + independent Coq reader for the "
                   "type-system grammar + abstraction to a plain type-system record; token-level round-trip lemmas per printer; "
                   "character-exact differential correspondence with Schema::sdl_with_options; cross-check with the crate's parse_schema"),
-    "text": ("Coq theorems: every printer of the exporter (description in both forms, deprecation, default value, input value, "
-             "applied directives, type references, type header with implements) reads back, for all inputs outside narrow known classes, "
-             "with a reader written from the GraphQL grammar; known classes are refuted with witnesses replayed on the real code."),
+    "text": ("Coq theorems, for all inputs outside seven narrow known classes: deprecation reasons (escape_string, table regenerated "
+             "from source) and @deprecated with/without reason, single-line descriptions at any indentation, names, type references "
+             "and the `implements` clause read back with a reader written from the GraphQL type-system grammar; block descriptions "
+             "are proved on a bounded domain (all strings up to 5 characters over 7 critical characters); the whole-document round trip "
+             "parse_sdl(export R) ~ abs_registry R is evaluated inside Coq on every generated case, not proved in general (partial). "
+             "Seven refutations with witnesses replayed on the real exporter. The exporter model agrees character for character with "
+             "Schema::sdl_with_options on generated (injected) registries and two derive-built schemas under varied options; "
+             "the crate's parse_schema is run on every exported text as a second reader."),
     "note": ("trusted: Coq kernel, facts translators, harness dump, sampled agreement model vs code; "
              "theorems closed under the global context (no axioms)"),
 }
